@@ -453,4 +453,241 @@ Proof.
   - rewrite E'. exists p, o, c', ds. split; [reflexivity|]. split; [exact H'|]. split; [cbn in P'; lia | exact D'].
 Qed.
 
+(* ---------------------------------------------------------------- numbers *)
+
+Lemma scan_number_suffix_ok : forall start c, cur_ok c -> is_boundary s start = true -> start <= c_pos c ->
+  exists p c' ds, scan_number_suffix s start c = Ok (TNumber, p, false, c', ds) /\
+    cur_ok c' /\ c_pos c <= c_pos c' /\ Forall (diag_wf s) ds.
+Proof.
+  intros start c H Bs L. unfold scan_number_suffix.
+  destruct (is_alpha_us (head_or_zero (c_rest c))).
+  - cbv zeta.
+    destruct (skip_while_ok is_word_byte word_byte_ascii (c_rest c) (c_pos c)) as (H1 & P1 & _).
+    { rewrite advn_eta. exact H. }
+    cbv zeta in H1, P1.
+    rewrite (slice_curs start c Bs H L).
+    eexists _, _, _. refine (conj eq_refl (conj H1 (conj P1 _))).
+    apply Forall_cons; [|apply Forall_nil]. apply mk_diag_wf. apply span_curs; [exact Bs | exact H1 | lia].
+  - rewrite (slice_curs start c Bs H L).
+    eexists _, _, _. refine (conj eq_refl (conj H (conj _ (Forall_nil _)))). lia.
+Qed.
+
+(* what the proofs need from `self.next_token()` when it is called from scan_number *)
+Definition cont_ok (lo : nat) (k : cursor -> outcome (token * cursor * list diag)) : Prop :=
+  forall c3, cur_ok c3 -> lo < c_pos c3 ->
+  exists t' c4 ds, k c3 = Ok (t', c4, ds) /\ cur_ok c4 /\ c_pos c3 <= c_pos c4 /\ Forall (diag_wf s) ds.
+
+Lemma scan_number_ok : forall c b t k, cur_ok c -> c_rest c = b :: t -> is_digit b = true -> cont_ok (c_pos c) k ->
+  exists kd p o c' ds, scan_number repaired s (c_pos c) c k = Ok (kd, p, o, c', ds) /\
+    cur_ok c' /\ c_pos c < c_pos c' /\ Forall (diag_wf s) ds.
+Proof.
+  intros c b t k H E D K. unfold scan_number. cbv zeta.
+  pose proof (cur_ok_boundary c H) as Bc.
+  destruct (skip_while_ok is_digit digit_ascii (c_rest c) (c_pos c)) as (H1 & P1 & Q1 & _).
+  { rewrite advn_eta. exact H. }
+  cbv zeta in H1, P1, Q1.
+  assert (P : c_pos c < c_pos (skip_while is_digit (c_rest c) (c_pos c))) by (eapply Q1; eauto).
+  remember (skip_while is_digit (c_rest c) (c_pos c)) as c1 eqn:Ec1.
+  assert (Suffix : forall c2, cur_ok c2 -> c_pos c1 <= c_pos c2 ->
+     exists kd p o c' ds, scan_number_suffix s (c_pos c) c2 = Ok (kd, p, o, c', ds) /\
+       cur_ok c' /\ c_pos c < c_pos c' /\ Forall (diag_wf s) ds).
+  { intros c2 H2 L2. destruct (scan_number_suffix_ok (c_pos c) c2 H2 Bc) as (p & c' & ds & E' & H' & P' & D'); [lia|].
+    exists TNumber, p, false, c', ds. refine (conj E' (conj H' (conj _ D'))). lia. }
+  destruct (c_rest c1) as [|dot t1] eqn:E1; [apply Suffix; [exact H1 | lia]|].
+  destruct (dot =? 46)%Z eqn:Cd; [|apply Suffix; [exact H1 | lia]].
+  apply Z.eqb_eq in Cd. subst dot.
+  destruct (cur_ok_step (c_rest c1) (c_pos c1) 46%Z t1) as [H2 _]; [rewrite advn_eta; exact H1 | exact E1 | reflexivity |].
+  destruct (negb (is_digit (head_or_zero t1))).
+  - cbn [v_skip_byte_after_bad_dot repaired c_pos].
+    destruct (K _ H2) as (t' & c4 & ds & Ek & H4 & P4 & D4); [cbn; lia|].
+    rewrite Ek. eexists _, _, _, _, _. refine (conj eq_refl (conj H4 (conj _ _))); [cbn in P4; lia|].
+    apply Forall_cons; [|exact D4]. apply mk_diag_wf. apply (span_curs (c_pos c) _ Bc H2). cbn. lia.
+  - cbn [c_rest c_pos].
+    destruct (skip_while_ok is_digit digit_ascii t1 (S (c_pos c1)) H2) as (H3 & P3 & _).
+    apply Suffix; [exact H3 | lia].
+Qed.
+
+(* ---------------------------------------------------------------- next_token *)
+
+Definition tok_good (c : cursor) (t : token) (c' : cursor) : Prop :=
+  c_pos c <= t_start t /\ t_end t = c_pos c' /\ is_boundary s (t_start t) = true /\
+  (t_start t < t_end t \/ (is_eof t = true /\ c_rest c' = [] /\ t_start t = t_end t)).
+
+Definition nt_ok (fuel : nat) : Prop :=
+  forall c, cur_ok c -> length (c_rest c) < fuel ->
+  exists t c' ds, next_token fuel repaired s c = Ok (t, c', ds) /\
+    cur_ok c' /\ tok_good c t c' /\ Forall (diag_wf s) ds.
+
+Lemma nt_cont : forall fuel c1, nt_ok fuel -> cur_ok c1 -> length (c_rest c1) <= fuel ->
+  cont_ok (c_pos c1) (next_token fuel repaired s).
+Proof.
+  intros fuel c1 IH H1 F c3 H3 L3.
+  destruct (IH c3 H3) as (t' & c4 & ds & E & H4 & (G1 & G2 & G3 & G4) & D).
+  { rewrite (cur_ok_len _ H3). rewrite (cur_ok_len _ H1) in F. destruct H1 as (_ & L1 & _).
+    destruct H3 as (_ & L3' & _). lia. }
+  exists t', c4, ds. refine (conj E (conj H4 (conj _ D))).
+  destruct G4 as [G4 | (_ & _ & G4)]; lia.
+Qed.
+
+Lemma finish_scanned : forall c c1 start k p o c' ds r,
+  r = Ok (k, p, o, c', ds) -> c_pos c <= start -> start = c_pos c1 -> cur_ok c1 -> cur_ok c' -> start < c_pos c' ->
+  Forall (diag_wf s) ds ->
+  exists t c'' ds', finish start r = Ok (t, c'', ds') /\ cur_ok c'' /\ tok_good c t c'' /\ Forall (diag_wf s) ds'.
+Proof.
+  intros c c1 start k p o c' ds r -> L -> H1 H' P D. cbn [finish mk_token].
+  eexists _, _, _. refine (conj eq_refl (conj H' (conj _ D))).
+  unfold tok_good. cbn [t_start t_end].
+  refine (conj L (conj eq_refl (conj (cur_ok_boundary _ H1) _))). left. exact P.
+Qed.
+
+Lemma next_token_ok : forall fuel, nt_ok fuel.
+Proof.
+  induction fuel as [|fuel IH]; intros c H F; [lia|].
+  cbn [next_token].
+  destruct (skip_whitespace_ok c H) as [H1 P1].
+  remember (skip_whitespace c) as c1 eqn:Ec1.
+  assert (F1 : length (c_rest c1) <= fuel).
+  { rewrite (cur_ok_len _ H1). rewrite (cur_ok_len _ H) in F. lia. }
+  assert (F1' : length s - c_pos c1 <= fuel) by (rewrite <- (cur_ok_len _ H1); exact F1).
+  destruct (c_rest c1) as [|b after] eqn:E1.
+  { (* end of input *)
+    eexists _, _, _. refine (conj eq_refl (conj H1 (conj _ (Forall_nil _)))).
+    unfold tok_good. cbn [t_start t_end].
+    refine (conj P1 (conj eq_refl (conj (cur_ok_boundary _ H1) _))). right.
+    refine (conj eq_refl (conj E1 eq_refl)). }
+  (* a recursive call after consuming at least one byte *)
+  assert (Rec : forall c2 d, cur_ok c2 -> c_pos c1 < c_pos c2 -> Forall (diag_wf s) d ->
+     exists t c' ds, match next_token fuel repaired s c2 with
+                     | Ok (t0, c0, ds0) => Ok (t0, c0, d ++ ds0)
+                     | other => other end = Ok (t, c', ds) /\
+       cur_ok c' /\ tok_good c t c' /\ Forall (diag_wf s) ds).
+  { intros c2 d H2 P2 Dd.
+    destruct (IH c2 H2) as (t & c' & ds & E & H' & (G1 & G2 & G3 & G4) & D).
+    { rewrite (cur_ok_len _ H2). destruct H1 as (_ & L1 & _). destruct H2 as (_ & L2' & _). lia. }
+    rewrite E. eexists _, _, _. refine (conj eq_refl (conj H' (conj _ _))).
+    - unfold tok_good. refine (conj _ (conj G2 (conj G3 G4))). lia.
+    - apply Forall_app. split; assumption. }
+  destruct (b =? 35)%Z eqn:C35.
+  { apply Z.eqb_eq in C35. subst b.
+    destruct (skip_comment_ok c1 after H1 E1) as [H2 P2].
+    destruct (Rec _ [] H2 P2 (Forall_nil _)) as (t & c' & ds & E & R).
+    cbn [app] in E. exists t, c', ds. split; [|exact R].
+    destruct (next_token fuel repaired s (skip_comment c1)) as [[[t0 c0] ds0]| |]; exact E. }
+  destruct (mem_z b quote_bytes) eqn:Cq.
+  { destruct (scan_string_ok c1 b after H1 E1 (quote_is_ascii _ Cq)) as (p & o & c' & ds & E & H' & P' & D').
+    eapply finish_scanned; eauto. }
+  destruct (assoc_z b punct_table) as [k|] eqn:Cp.
+  { destruct (cur_ok_step (c_rest c1) (c_pos c1) b after) as [H2 _];
+      [rewrite advn_eta; exact H1 | exact E1 | exact (punct_is_ascii _ _ Cp) |].
+    eapply (finish_scanned c c1); [reflexivity | exact P1 | reflexivity | exact H1 | | | apply Forall_nil].
+    - unfold adv1. rewrite E1. exact H2.
+    - cbn. lia. }
+  destruct (is_digit b) eqn:Cd.
+  { destruct (scan_number_ok c1 b after (next_token fuel repaired s) H1 E1 Cd (nt_cont fuel c1 IH H1 ltac:(rewrite E1; exact F1)))
+      as (kd & p & o & c' & ds & E & H' & P' & D').
+    eapply finish_scanned; eauto. }
+  destruct (is_alpha_us b) eqn:Ca.
+  { destruct (scan_ident_ok c1 b after H1 E1 Ca) as (kd & p & o & c' & ds & E & H' & P' & D').
+    eapply finish_scanned; eauto. }
+  destruct (negb (is_ascii b)) eqn:Cn.
+  { (* a non-ASCII character: skipped as a whole *)
+    assert (V1 : valid_utf8 (b :: after) = true) by (rewrite <- E1; apply H1).
+    pose proof (valid_step b after V1) as (W1 & W2 & W3 & _). cbv zeta in W1, W2, W3.
+    remember (char_width b) as w eqn:Ew.
+    replace ((w =? 0) || (length (b :: after) <? w)) with false.
+    2:{ symmetry. apply orb_false_iff. split; [apply Nat.eqb_neq; lia | apply Nat.ltb_ge; lia]. }
+    assert (H2 : cur_ok (advn w c1)).
+    { apply cur_ok_advn; [exact H1 | rewrite E1; exact W2 | rewrite E1; exact W3]. }
+    assert (Dd : Forall (diag_wf s) [mk_diag EUnexpectedChar 0 (c_pos c1) (c_pos c1 + w)]).
+    { apply Forall_cons; [|apply Forall_nil]. apply mk_diag_wf.
+      apply (span_curs (c_pos c1) (advn w c1) (cur_ok_boundary _ H1) H2). cbn. lia. }
+    destruct (Rec (advn w c1) _ H2 ltac:(cbn; lia) Dd) as (t & c' & ds & E & R).
+    exists t, c', ds. split; [|exact R]. unfold prepend_diag.
+    destruct (next_token fuel repaired s (advn w c1)) as [[[t0 c0] ds0]| |]; exact E. }
+  (* an unexpected ASCII byte *)
+  apply negb_false_iff in Cn.
+  destruct (cur_ok_step (c_rest c1) (c_pos c1) b after) as [H2 _];
+    [rewrite advn_eta; exact H1 | exact E1 | exact Cn |].
+  assert (H2' : cur_ok (adv1 c1)) by (unfold adv1; rewrite E1; exact H2).
+  assert (Dd : Forall (diag_wf s) [mk_diag EUnexpectedChar 0 (c_pos c1) (c_pos c1)]).
+  { apply Forall_cons; [|apply Forall_nil]. apply mk_diag_wf.
+    apply (span_curs (c_pos c1) c1 (cur_ok_boundary _ H1) H1). lia. }
+  destruct (Rec (adv1 c1) _ H2' ltac:(cbn; lia) Dd) as (t & c' & ds & E & R).
+  exists t, c', ds. split; [|exact R]. unfold prepend_diag.
+  destruct (next_token fuel repaired s (adv1 c1)) as [[[t0 c0] ds0]| |]; exact E.
+Qed.
+
+(* ---------------------------------------------------------------- the token stream *)
+
+Lemma lex_loop_ok : forall fuel c lo, cur_ok c -> length (c_rest c) < fuel -> lo <= c_pos c ->
+  exists toks ds, lex_loop fuel repaired s c = Ok (toks, ds, length s) /\
+    Forall (token_wf s) toks /\ Forall (diag_wf s) ds /\ tokens_ordered lo toks.
+Proof.
+  induction fuel as [|fuel IH]; intros c lo H F L; [lia|].
+  cbn [lex_loop].
+  destruct (next_token_ok (token_fuel c) c H) as (t & c' & ds & E & H' & (G1 & G2 & G3 & G4) & D).
+  { unfold token_fuel. lia. }
+  rewrite E.
+  destruct (is_eof t && (length s <=? c_pos c')) eqn:C.
+  - apply andb_true_iff in C as [_ C]. apply Nat.leb_le in C.
+    assert (c_pos c' = length s) by (destruct H' as (_ & L' & _); lia).
+    exists [], ds. rewrite H0. refine (conj eq_refl (conj (Forall_nil _) (conj D I))).
+  - assert (P : t_start t < t_end t).
+    { destruct G4 as [G4 | (G4 & G5 & _)]; [exact G4|].
+      exfalso. rewrite G4 in C. cbn in C. apply Nat.leb_gt in C.
+      pose proof (cur_ok_nil _ H' G5). lia. }
+    destruct (IH c' (t_end t) H') as (toks & ds' & E' & T' & D' & O').
+    { rewrite (cur_ok_len _ H'). rewrite (cur_ok_len _ H) in F. destruct H' as (_ & L' & _). lia. }
+    { lia. }
+    rewrite E'. exists (t :: toks), (ds ++ ds').
+    refine (conj eq_refl (conj _ (conj _ _))).
+    + apply Forall_cons; [|exact T']. unfold token_wf.
+      apply span_ok; [exact G3 | rewrite G2; apply cur_ok_boundary; exact H' | lia | rewrite G2; apply H'].
+    + apply Forall_app. split; assumption.
+    + cbn [tokens_ordered]. refine (conj _ (conj P O')). lia.
+Qed.
+
 End Source.
+
+(* ---------------------------------------------------------------- theorems *)
+
+Theorem lex_total_spans_wf_repaired : forall s, valid_utf8 s = true ->
+  exists toks diags, lex repaired s = Ok (toks, diags, length s) /\
+    Forall (token_wf s) toks /\ Forall (diag_wf s) diags /\ tokens_ordered 0 toks.
+Proof.
+  intros s V. unfold lex. apply (lex_loop_ok s); [apply cur_ok_start; exact V | cbn; lia | cbn; lia].
+Qed.
+
+(* one call of next_token from a well-formed cursor: it returns (never LexPanic / OutOfFuel),
+   leaves a well-formed cursor, and either consumed at least one byte or reports the end *)
+Theorem lex_progress_repaired : forall s c, valid_utf8 s = true -> cursor_wf s c ->
+  exists t c' ds, next_token (token_fuel c) repaired s c = Ok (t, c', ds) /\ cursor_wf s c' /\
+    c_pos c <= t_start t /\ t_end t = c_pos c' /\
+    (c_pos c < c_pos c' \/ (is_eof t = true /\ c_pos c' = length s)).
+Proof.
+  intros s c V (R & L & B).
+  assert (H : cur_ok s c).
+  { refine (conj R (conj L _)). rewrite R. apply boundary_valid_suffix; assumption. }
+  destruct (next_token_ok s (token_fuel c) c H) as (t & c' & ds & E & H' & (G1 & G2 & G3 & G4) & D).
+  { unfold token_fuel. lia. }
+  exists t, c', ds. refine (conj E (conj (cur_ok_wf s c' H') (conj G1 (conj G2 _)))).
+  destruct G4 as [G4 | (G4 & G5 & G6)]; [left; lia|].
+  right. split; [exact G4|]. apply (cur_ok_nil s); assumption.
+Qed.
+
+(* ---------------------------------------------------------------- the shipped lexer is refuted *)
+
+(* `1.é` : the cursor lands inside é and chars() is called on a non-boundary *)
+Lemma shipped_bad_dot_panics :
+  valid_utf8 [49; 46; 195; 169]%Z = true /\ lex shipped [49; 46; 195; 169]%Z = LexPanic PNonAsciiChars 3.
+Proof. split; vm_compute; reflexivity. Qed.
+
+(* `1.` at the end of the text: the cursor ends at len + 1 *)
+Lemma shipped_bad_dot_overruns :
+  exists toks ds, lex shipped [49; 46]%Z = Ok (toks, ds, 3).
+Proof. eexists _, _. vm_compute. reflexivity. Qed.
+
+(* `"\é"` : the escape diagnostic ends inside é, the next re-slice starts there *)
+Lemma shipped_escape_panics :
+  valid_utf8 [34; 92; 195; 169; 34]%Z = true /\ lex shipped [34; 92; 195; 169; 34]%Z = LexPanic PStringSlice 3.
+Proof. split; vm_compute; reflexivity. Qed.
